@@ -5,6 +5,7 @@ import struct
 
 from . import model
 from .core import Violation
+from .lib import T_CONST
 from .treemodel import MNode, World, sat_int, ARENA_STRINGS, KEY_POOL, STR_POOL, NUM_POOL
 
 LONG_KEY_POOL = [b"k" * 63, b"k" * 64, b"K" * 64, b"k" * 63 + b"X", b"k" * 63 + b"Y", b"k" * 63 + b"x", b"k" * 65, b"q" * 127 + b"a", b"q" * 127 + b"b",
@@ -352,8 +353,14 @@ class Interp:
             if karg is None:
                 w.expect(fname + "(object, NULL, item)", f(obj.ptr, None, item.ptr), 0)
                 return "add_object(NULL key)"
+            was_const, was_ptr = item.key_const and item.key is not None, item.key_ptr
+            alias_of_own_const = was_const and not isinstance(karg, (bytes, bytearray)) and karg == lib.shim_key(item.ptr)
             w.expect(fname, f(obj.ptr, karg, item.ptr), 1)
             item.key, item.key_const, item.key_ptr = kb, False, None
+            if alias_of_own_const and (lib.shim_type(item.ptr) & T_CONST) and lib.shim_key(item.ptr) == karg:
+                # added under the very constant it already carried: keeping the borrowed name (flag and pointer) instead of making an
+                # owned copy of it is as good - the caller's constant outlives the item either way
+                item.key_const, item.key_ptr = True, was_ptr
         w.roots.remove(item)
         item.parent = obj
         obj.children.append(item)
@@ -800,13 +807,19 @@ class Interp:
                 n.children.append(cc)
         return n
 
-    def bind_ptrs(self, n, ptr):
+    def bind_ptrs(self, n, ptr, named=False):
         n.ptr = ptr
+        if not named and n.key is not None and not self.lib.shim_key(ptr):
+            # the name a copy carries where no name is needed (the copy itself, elements of arrays) is a stale one: whether
+            # Duplicate reproduces it is nobody's promise.  If it is there it must be the right one (check_all).
+            n.key = None
+            n.key_const = False
+            n.key_ptr = None
         kids = self.lib.children(ptr)
         if len(kids) != len(n.children):
             raise Violation("copy has %d children where the model has %d" % (len(kids), len(n.children)), key="dup-shape")
         for c, p in zip(n.children, kids):
-            self.bind_ptrs(c, p)
+            self.bind_ptrs(c, p, named=(n.t == "O"))
 
     def op_dup(self, a, b, c, d):
         w, lib = self.w, self.lib
